@@ -216,8 +216,8 @@ pub fn run(ctx: &Ctx) {
     }, check_decrypt_any);
     ctx.cold("cold_start_encrypt", "mode encryption (then decryption) as the first library operation of a fresh process (4 modes x 3 lengths)", cold_cases, check_valid);
 
-    let huge: Vec<usize> = ctx.tier.pick(vec![(1usize << 16) + 3], vec![(1 << 20) + 3, (1 << 22) + 16, (1 << 24) + 1]);
-    ctx.listed("huge_messages", "each mode on a few very large inputs (2^16+3 bytes in the quick tier; up to 2^24+1 in the thorough tier), IV near a carry", move || {
+    let huge: Vec<usize> = ctx.tier.pick(vec![(1usize << 16) - 1, 1 << 16, (1 << 16) + 3, (1 << 16) + 16, 100_000, (1 << 17) + 40, (1 << 18) + 8], vec![(1usize << 16) - 1, 1 << 16, (1 << 16) + 3, (1 << 16) + 16, 100_000, (1 << 17) + 40, (1 << 18) + 8, (1 << 20) + 3, (1 << 22) + 16, (1 << 24) + 1]);
+    ctx.listed("huge_messages", "each mode on very large inputs (2^16-1, 2^16, 2^16+3, 2^16+16, 100000, 2^17+40, 2^18+8 bytes in the quick tier; up to 2^24+1 in the thorough tier: size thresholds, chunked or parallel paths), IV near a carry", move || {
         let mut v = Vec::new();
         for len in huge.iter() {
             for mode in 0..4u8 {
